@@ -28,7 +28,8 @@ try:
     t0 = time.time()
     c = sh("./check %s --tier %s" % (pid, tier), cwd="/verif", env=dict(os.environ, RICH_SRC=wt))
     res["check_exit"] = c.returncode; res["check_wall_s"] = round(time.time() - t0, 1)
-    res["check_lines"] = [l for l in c.stdout.splitlines() if l.startswith(("VIOLATION", "  signature", "KNOWN-FINDING", "DRIFT", "MACHINERY", pid))][:14]
+    vlines = [l[:400] for l in c.stdout.splitlines() if l.startswith(("VIOLATION", "  signature", "KNOWN-FINDING", "MACHINERY", pid))]
+    res["check_lines"] = vlines[:14] + [l[:300] for l in c.stdout.splitlines() if l.startswith("DRIFT")][:4]
     res["caught"] = c.returncode == 1
 finally:
     sh("git -C /repo worktree remove --force %s" % wt)
